@@ -57,6 +57,8 @@ Fixpoint cname_walk (fuel : nat) (m : list (dname * dname)) (seen : list dname) 
 Definition follow_cnames (rrs : list rr) (target : dname) (qtype : N)
   : res unit (option (dname * list (dname * dname))) :=
   let '(got, m) := cname_scan rrs target qtype false [] in
+  (* a question for the CNAME itself is answered by that record, not by what it points to *)
+  if qtype =? RT_CNAME then (if got then Ok (Some (target, m)) else Ok None) else
   match cname_walk (S (S (length m))) m [] target with
   | Ok (Some (final, seen)) => if got || negb (is_nil seen) then Ok (Some (final, m)) else Ok None
   | Ok None => Ok None
@@ -110,10 +112,11 @@ Definition get_nxdomain_nodata_soa (q : question) (resp : message) (current_matc
 
 (* the path loop of validate_nameserver_response (after the fix): CNAME RRs on
    the path from the question name, in chain order *)
-Fixpoint path_cnames (fuel : nat) (answers : list rr) (m : list (dname * dname)) (name : dname) : list rr :=
+Fixpoint path_cnames (fuel : nat) (answers : list rr) (m : list (dname * dname)) (final name : dname) : list rr :=
   match fuel with
   | O => []
   | S f =>
+    if dname_eqb name final then [] else
     match alookup dname_eqb name m with
     | None => []
     | Some target =>
@@ -121,7 +124,7 @@ Fixpoint path_cnames (fuel : nat) (answers : list rr) (m : list (dname * dname))
                                && (rr_type an =? RT_CNAME) && rdata_eqb (rr_data an) (RD_Name target)) answers with
        | Some an => [an]
        | None => []
-       end) ++ path_cnames f answers m target
+       end) ++ path_cnames f answers m final target
     end
   end.
 
@@ -141,7 +144,7 @@ Definition validate_nameserver_response (q : question) (resp : message) (current
     let all_unknown := forallb rr_is_unknown answers in
     let finals := filter (fun an => negb (rr_is_unknown an) && rtype_matches (rr_type an) (q_type q)
                                     && dname_eqb (rr_name an) final_name) answers in
-    let rrs_for_query := path_cnames (S (length cname_map)) answers cname_map (q_name q) ++ finals in
+    let rrs_for_query := path_cnames (S (length cname_map)) answers cname_map final_name (q_name q) ++ finals in
     if all_unknown then Ok None
     else if is_nil rrs_for_query then Ok None
     else if negb (is_nil finals) then Ok (Some (NRAnswer rrs_for_query None))
